@@ -45,21 +45,27 @@ static off_t out0, err0;
 
 /* ---------------------------------------------------------------- tokens */
 static char **tok; static int ntok, tp;
+static char EOLTOK[] = "\n";
 static void load_tokens(const char *fn)
 {
-	FILE *f = fopen(fn, "rb"); long sz; char *buf; int cap = 1024; char *s;
+	FILE *f = fopen(fn, "rb"); long sz; char *buf; int cap = 1024; char *line, *s, *save1 = 0, *save2 = 0;
 	if (!f) { perror(fn); exit(2); }
 	fseek(f, 0, SEEK_END); sz = ftell(f); fseek(f, 0, SEEK_SET);
 	buf = malloc(sz + 1); if (fread(buf, 1, sz, f) != (size_t)sz) exit(2); buf[sz] = 0; fclose(f);
 	tok = malloc(cap * sizeof(char*)); ntok = 0;
-	for (s = strtok(buf, " \t\r\n"); s; s = strtok(NULL, " \t\r\n")) {
-		if (ntok == cap) { cap *= 2; tok = realloc(tok, cap * sizeof(char*)); }
-		tok[ntok++] = s;
+	for (line = strtok_r(buf, "\n", &save1); line; line = strtok_r(NULL, "\n", &save1)) {
+		for (s = strtok_r(line, " \t\r", &save2); s; s = strtok_r(NULL, " \t\r", &save2)) {
+			if (ntok + 2 >= cap) { cap *= 2; tok = realloc(tok, cap * sizeof(char*)); }
+			tok[ntok++] = s;
+		}
+		if (ntok + 2 >= cap) { cap *= 2; tok = realloc(tok, cap * sizeof(char*)); }
+		tok[ntok++] = EOLTOK;       /* end of command line */
 	}
 	tp = 0;
 }
 static void die(const char *m) { fprintf(tr, "{\"k\":\"X\",\"kind\":\"driver\",\"msg\":\"%s\",\"tp\":%d}\n", m, tp); fflush(tr); _exit(4); }
-static char *nx(void) { if (tp >= ntok) die("scenario truncated"); return tok[tp++]; }
+static char *nx(void) { while (tp < ntok && tok[tp] == EOLTOK) tp++; if (tp >= ntok) die("scenario truncated"); return tok[tp++]; }
+static void skipline(void) { while (tp < ntok && tok[tp] != EOLTOK) tp++; }
 static int nxi(void) { return (int)strtol(nx(), NULL, 10); }
 static const char *nxname(void) { char *s = nx(); return (s[0] == '-' && s[1] == 0) ? NULL : s; }
 static int nxh(void) { char *s = nx(); int h = atoi(s + 1); if (h < 0 || h >= MAXH) die("bad handle"); return h; }
@@ -196,7 +202,6 @@ static void do_dump(int h, const char *callname)
 	m = mpq_QSget_rowcount(p); n = mpq_QSget_colcount(p); nz = mpq_QSget_nzcount(p);
 	J_int("nrows", m); J_int("ncols", n); J_int("nz", nz);
 	rv = mpq_QSget_objsense(p, &os); J_int("rv_objsense", rv); J_int("objsense", os);
-	J_str("probname", mpq_QSget_probname(p) ? "set" : NULL);
 	{ char *s = mpq_QSget_probname(p); J_str("pname", s); if (s) mpq_QSfree(s); s = mpq_QSget_objname(p); J_str("objname", s); if (s) mpq_QSfree(s); }
 	{ mpq_t *a = qalloc(n), *b = qalloc(n);
 	  rv = mpq_QSget_obj(p, a); J_int("rv_obj", rv); J_qarr("obj", a, n);
@@ -351,7 +356,15 @@ int main(int argc, char **argv)
 	QSexact_verif_hook = hookfn;
 	QSexact_verif_fault = faultfn;
 	while (tp < ntok) {
-		char *c = nx();
+		char *c;
+		while (tp < ntok && tok[tp] == EOLTOK) tp++;
+		if (tp >= ntok) break;
+		c = nx();
+		/* a call on a handle that does not exist (its creation failed earlier) is not made */
+		if (tp < ntok && tok[tp] != EOLTOK && tok[tp][0] == 'h' && tok[tp][1] >= '0' && tok[tp][1] <= '9' && tok[tp][2] == 0
+				&& strcmp(c, "create") && strcmp(c, "load") && strcmp(c, "read_prob") && strcmp(c, "free") && strcmp(c, "dump") && strcmp(c, "sol") && strcmp(c, "copy")
+				&& !H[atoi(tok[tp] + 1)]) {
+			ev_begin(c); J_str("h", tok[tp]); J_int("nullh", 1); arm(); disarm(); ev_end(NULL); skipline(); continue; }
 		if (!strcmp(c, "#")) { /* comment token followed by one word */ nx(); continue; }
 		else if (!strcmp(c, "handler")) { char *s = nx(); ev_begin("handler"); J_str("mode", s); arm();
 			if (!strcmp(s, "on")) { QSlog_set_handler(loghandler, NULL); handler_on = 1; } else { QSlog_set_handler(NULL, NULL); handler_on = 0; }
@@ -385,6 +398,7 @@ int main(int argc, char **argv)
 			arm(); H[h] = mpq_QSload_prob(nm, nc, nr, cnt, beg, ind, val, os, obj, rhs, sense, lo, up, cn, rn); disarm();
 			J_int("ok", H[h] ? 1 : 0); ev_end(H[h]);
 			for (k = 0; k < tot; k++) mpq_clear(val[k]); free(val); free(ind); free(cnt); free(beg); qfree(obj, nc); qfree(lo, nc); qfree(up, nc); qfree(rhs, nr); free(sense); free(cn); free(rn); }
+		else if (!strcmp(c, "copy") && tp + 1 < ntok && !H[atoi(tok[tp + 1] + 1)]) { ev_begin(c); J_str("h2", tok[tp]); J_str("h", tok[tp + 1]); J_int("ok", 0); J_int("nullh", 1); arm(); disarm(); ev_end(NULL); skipline(); }
 		else if (!strcmp(c, "copy")) { int h2 = nxh(), h = nxh(); const char *nm = nxname(); ev_begin("copy"); J_hname("h2", h2); J_hname("h", h); J_str("name", nm); arm();
 			H[h2] = H[h] ? mpq_QScopy_prob(H[h], nm) : NULL; disarm(); J_int("ok", H[h2] ? 1 : 0); ev_end(H[h2]); }
 		else if (!strcmp(c, "free")) { int h = nxh(); ev_begin("free"); J_hname("h", h); arm(); if (H[h]) mpq_QSfree_prob(H[h]); H[h] = NULL; disarm(); ev_end(NULL); }
